@@ -3,6 +3,7 @@ import Proofs.TypeIdSymm
 import Proofs.TypeIdTrans
 import Proofs.TypeIdTotal
 import Proofs.TypeIdHash
+import Proofs.TypeIdTags
 import Proofs.TypeMapSpec
 
 /-! # C28 — type identity is a total equivalence consistent with type hashing and type maps
@@ -41,6 +42,14 @@ theorem identical_hash (env : Nat → List String) (nh : Nat → UInt32) (x y : 
   rw [identR_eq] at h
   simp only [Res.ok.injEq] at h
   exact hash_eq env nh x y wx wy h
+
+/-- the relation that compares struct tags is the finer one -/
+theorem identical_ignoreTags (x y : Ty) (h : Identical x y = .ok true) : IdenticalIgnoreTags x y = .ok true := by
+  unfold Identical at h
+  unfold IdenticalIgnoreTags
+  rw [identR_eq] at *
+  simp only [Res.ok.injEq] at *
+  exact ident_tags x y h
 
 theorem identB_eq (x y : Ty) : identB x y = ident true x y := by
   unfold identB; rw [identR_eq]; cases ident true x y <;> rfl
